@@ -3,7 +3,9 @@ from __future__ import annotations
 
 import ast
 import collections.abc
+import functools
 import json
+import os
 import re
 import time
 import types as pytypes
@@ -12,7 +14,7 @@ import warnings
 
 from .. import typetrees as tt
 from ..common import hx, unhx
-from ..runner import Check
+from ..runner import Campaign, Check
 
 SPECIALS = set("[],|")
 
@@ -114,6 +116,31 @@ def eval_hint(hint: str):
     with warnings.catch_warnings():
         warnings.simplefilter("ignore")
         return eval(hint, {"__builtins__": {"int": int, "str": str, "float": float, "bool": bool, "bytes": bytes, "list": list, "set": set, "dict": dict, "frozenset": frozenset, "None": None}}, _scope())  # noqa: S307
+
+
+@functools.lru_cache(maxsize=400000)
+def nf_of_hint(hint: str) -> str:
+    """normal form of the evaluated hint, or "!<exception>" (the `X | Y` spelling evaluates on Python ≥ 3.10:
+    classes, typing aliases, None and the stand-in classes all implement `|`)"""
+    try:
+        return nf(eval_hint(hint))
+    except Exception as e:  # noqa: BLE001
+        return f"!{type(e).__name__}"
+
+
+def wrapper_subscripts(tree: ast.AST) -> int:
+    """number of `Optional[…]` / `Union[…]` subscriptions in a hint (outside Literal[…])"""
+    n = 0
+    todo = [tree]
+    while todo:
+        x = todo.pop()
+        if isinstance(x, ast.Subscript) and isinstance(x.value, ast.Name):
+            if x.value.id == "Literal":
+                continue
+            if x.value.id in ("Optional", "Union"):
+                n += 1
+        todo.extend(ast.iter_child_nodes(x))
+    return n
 
 
 def none_counts(tree: ast.AST) -> int:
@@ -255,15 +282,14 @@ def triggers(d) -> list[str]:
 def in_ir_domain(d) -> bool:
     """trees the property quantifies over: what the IR expresses (names are identifiers, no empty node,
     one container bit, type XOR children); literals and optional flags are free"""
-    t = triggers(d)
-    return not ({"name_not_identifier", "empty_node", "type_and_children", "several_containers", "typing_name_as_type"} & set(t))
+    return not (NOT_IR & set(triggers(d)))
 
 
 # ---------------------------------------------------------------- the property's own oracle on one tree
-def oracle_tree(ck: Check, camp, d, model_den: dict | None = None) -> None:
+def oracle_tree(ck: Check, camp, d, model_den: dict | None = None, trig: list[str] | None = None) -> None:
     """all 8 spellings of the real hint of `d`: parse, evaluate, same normal form; no double Optional;
     None once; making the root optional keeps the alternatives"""
-    trig = triggers(d)
+    trig = triggers(d) if trig is None else trig
 
     base = {"oracle": "hint", "triggers": trig}
     _fail = ck.fail
@@ -427,82 +453,253 @@ def tree_stream(ck: Check, n_plain: int, n_adv: int, thorough: bool):
             yield "small_scope", d
 
 
+NOT_IR = {"name_not_identifier", "empty_node", "type_and_children", "several_containers", "typing_name_as_type"}
+TYPING0, OPERATOR0 = (False, False, False), (True, False, False)
+CONTAINER_SPELLINGS = [(False, False), (True, False), (False, True), (True, True)]  # (std, generic): order of containerSpellings
+
+
+def tree_requests(d) -> list[str]:
+    """17 request lines: for each option vector the model of `type_hint` and the structural rendering; then the
+    decidable hypotheses of the theorems"""
+    s = tt.sx(d)
+    out = []
+    for o in tt.OPTION_VECTORS:
+        out.append(f"types.hint {tt.opt_bits(o)} {s}")
+        out.append(f"types.hintexpr {tt.opt_bits(o)} {s}")
+    out.append(f"types.region {s}")
+    return out
+
+
+N_REQ = 17
+
+
+def real_side(d) -> dict:
+    """everything that is asked of the real code for one tree (runs in the check or in a worker process)"""
+    hints = {o: real_hint(d, o) for o in tt.OPTION_VECTORS}
+    trig = triggers(d)
+    return {"hints": hints, "trig": trig, "domain": not (NOT_IR & set(trig)), "oracle_fails": None}
+
+
+_probe: Check | None = None
+
+
+def _worker(ds: list) -> list:
+    """real side + the property's oracle on a chunk of trees; the parent re-runs the oracle on the trees flagged
+    here, so classification and known-finding matching happen in one place"""
+    global _probe
+    if _probe is None:
+        _probe = Check("C13", "thorough")
+        _probe.findings = []
+    out = []
+    for d in ds:
+        r = real_side(d)
+        if r["domain"]:
+            _probe.failures = []
+            oracle_tree(_probe, Campaign("probe"), d, trig=r["trig"])
+            r["oracle_fails"] = bool(_probe.failures)
+        out.append(r)
+    return out
+
+
+class TreeCampaigns:
+    def __init__(self, ck: Check, label: str = "") -> None:
+        sfx = f" [{label}]" if label else ""
+        self.camp = ck.campaign("types.hint vs DataType(...).type_hint and is_optional afterwards (8 option vectors per tree)" + sfx)
+        self.camp2 = ck.campaign("structural rendering: print(hintE) vs the real hint; denote(hintE) vs typing.get_origin/get_args of the evaluated real hint" + sfx)
+        self.orc = ck.campaign("oracle on the real hints: parses, evaluates, same normal form in all 8 spellings, no Optional[Optional[, None once, optional keeps alternatives" + sfx)
+        self.reg = ck.campaign("hypotheses of the theorems evaluated on every tree (wfTree, freeTree, opRegion) and their conclusions on the real hints: region coverage" + sfx)
+
+
+def judge_tree(ck: Check, tc: TreeCampaigns, stream: str, d, reps: list[str], real: dict) -> None:
+    camp, camp2, orc, reg = tc.camp, tc.camp2, tc.orc, tc.reg
+    key = json.dumps(d, sort_keys=True, default=str)
+    trig, domain, hints = real["trig"], real["domain"], real["hints"]
+    plain_lits = "literal_special" not in trig
+    for n, o in enumerate(tt.OPTION_VECTORS):
+        rep, rep2 = reps[2 * n], reps[2 * n + 1]
+        camp.evaluations += 1
+        impl = hints[o]
+        if impl[0] == "!exc":
+            camp.unmodelled += 1
+            camp.hit("real_raises:" + impl[1])
+            continue
+        if rep.startswith("ok "):
+            _, a, b = rep.split(" ")
+            model = (unhx(a), b == "1")
+        else:
+            model = rep
+        camp.hit(f"stream:{stream}")
+        if model != impl:
+            ck.disagree(camp, {"tree": d, "opts": list(o)}, model, impl)
+        elif len(camp.samples) < 3 and tt.size(d) > 2:
+            camp.samples.append({"tree": d, "opts": list(o), "hint": impl[0], "is_optional_after": impl[1]})
+        # structural rendering (typeHint_eq_print_typing / typeHint_eq_print_operator on the real code)
+        if rep2.startswith("ok "):
+            _, pe, fl, den, wf = rep2.split(" ")
+            camp2.evaluations += 1
+            camp2.hit(("wfTree:" if wf == "1" else "not_wfTree:") + ("operator" if o[0] else "typing"))
+            if wf == "1":
+                if (unhx(pe), fl == "1") != impl:
+                    ck.disagree(camp2, {"tree": d, "opts": list(o), "what": "print(hintE) on a wfTree"}, (unhx(pe), fl == "1"), impl)
+                elif domain and plain_lits:
+                    pyden = nf_of_hint(impl[0])
+                    if not pyden.startswith("!"):
+                        camp2.distinct.add((key, o))
+                        camp2.hit("denote_vs_eval:" + ("operator" if o[0] else "typing"))
+                        if pyden != unhx(den):
+                            ck.disagree(camp2, {"tree": d, "opts": list(o), "hint": impl[0], "what": "denote"}, unhx(den), pyden)
+                        elif len(camp2.samples) < 3 and tt.size(d) > 2:
+                            camp2.samples.append({"hint": impl[0], "normal_form": pyden})
+                    else:
+                        camp2.hit("real_hint_does_not_evaluate")
+    for t in trig:
+        camp.hit("tree:" + t)
+    camp.hit(f"size:{min(tt.size(d), 8)}")
+    if tt.size(d) > 1:
+        camp.distinct.add(key)
+    judge_region(ck, reg, d, key, reps[2 * len(tt.OPTION_VECTORS)], hints, trig)
+    # the property's own oracle, on the trees the property quantifies over
+    if domain:
+        orc.evaluations += 1
+        orc.hit(f"stream:{stream}")
+        for t in trig:
+            orc.hit("tree:" + t)
+        if real["oracle_fails"] is False:
+            orc.distinct.add(key)  # established by the worker process: every clause of the oracle holds
+        else:
+            oracle_tree(ck, orc, d, trig=trig)
+        if len(orc.samples) < 3 and tt.size(d) > 3:
+            orc.samples.append({"tree": d, "hints": {tt.opt_bits(o): v[0] for o, v in hints.items()}})
+
+
+def judge_region(ck: Check, reg, d, key: str, rep: str, hints: dict, trig: list[str]) -> None:
+    """The decidable hypotheses of the new theorems on this tree, and — where they hold — the conclusions on the
+    REAL hints: none_once_operator, spelling_invariant_operator_partial (per container spelling),
+    spelling_invariant_partial (all eight).  A conclusion that fails inside the region is a model/code
+    disagreement; outside, how often the real spellings differ shows how tight the region is."""
+    reg.evaluations += 1
+    if not rep.startswith("ok "):
+        ck.disagree(reg, {"tree": d}, rep, "types.region reply")
+        return
+    _, wf, free, regs, why, rootok = rep.split(" ")
+    if any(v[0] == "!exc" for v in hints.values()):
+        reg.hit("real_raises")
+        return
+    if wf != "1":
+        reg.hit("outside:not_wfTree (a name or literal with [ ] , | or blanks, or an empty node)")
+        return
+    reg.hit("wfTree")
+    inside_all = regs == "1111"
+    if inside_all and free == "1":
+        reg.hit("region:inside (wfTree and freeTree and opRegionAll): all 8 spellings proved to denote the same")
+    elif inside_all:
+        reg.hit("region:operator-half only (a name is a container name: not freeTree)")
+    else:
+        reg.hit("region:outside opRegion")
+        if why[0] == "1":
+            reg.hit("outside:why:a union member renders as Any")
+        if why[1] == "1":
+            reg.hit("outside:why:optional member of a union that is itself the list/set/dict (C13-F4)")
+        if why[2] == "1":
+            reg.hit("outside:why:list/set/dict union of Nones (C13-F3)")
+    evaluable = not (NOT_IR & set(trig)) and "literal_special" not in trig
+    parsed = {}
+    for o, (h, _) in hints.items():
+        try:
+            parsed[o] = ast.parse(h, mode="eval").body if h else None
+        except SyntaxError:
+            parsed[o] = None
+    # none_once_operator / no_optional_wrapper_operator: every wfTree, the four `|` spellings
+    for o in tt.OPTION_VECTORS:
+        if o[0] and parsed[o] is not None and evaluable:
+            n_none, n_wrap = none_counts(parsed[o]), wrapper_subscripts(parsed[o])
+            reg.hit("checked:none_once_operator")
+            if n_none > 1 or n_wrap:
+                ck.disagree(reg, {"tree": d, "opts": list(o), "theorem": "none_once_operator"}, "None at most once per union, no Optional[/Union[", hints[o][0])
+    # the statement vocabulary: rootOK (Lean) vs none_counts (the oracle's) on the real hints
+    if evaluable:
+        for bit, o in zip(rootok, (TYPING0, OPERATOR0)):
+            if parsed[o] is not None:
+                py = none_counts(parsed[o]) <= 1
+                reg.hit("checked:rootOK_vs_none_counts")
+                if py != (bit == "1"):
+                    ck.disagree(reg, {"tree": d, "opts": list(o), "what": "rootOK vs none_counts"}, bit == "1", py)
+    if not evaluable:
+        reg.hit("conclusions_not_evaluated (names that are not identifiers / typing names as types)")
+        return
+    nfs = {o: nf_of_hint(h) for o, (h, _) in hints.items()}
+    # spelling_invariant_operator_partial, per container spelling
+    differs_somewhere = False
+    for k, (std, gen) in enumerate(CONTAINER_SPELLINGS):
+        a, b = nfs[(False, std, gen)], nfs[(True, std, gen)]
+        if a.startswith("!") or b.startswith("!"):
+            reg.hit("instance_not_evaluable")
+            continue
+        if a != b:
+            differs_somewhere = True
+        if regs[k] == "1":
+            reg.hit("checked:spelling_invariant_operator_partial")
+            reg.distinct.add((key, k))
+            if a != b:
+                ck.disagree(reg, {"tree": d, "container_spelling": [std, gen], "theorem": "spelling_invariant_operator_partial"},
+                            "same denotation", f"{hints[(False, std, gen)][0]!r} -> {a}; {hints[(True, std, gen)][0]!r} -> {b}")
+    vals = {v for v in nfs.values() if not v.startswith("!")}
+    if inside_all and free == "1" and len(vals) == len({*nfs.values()}):
+        reg.hit("checked:spelling_invariant_partial")
+        if len(vals) > 1:
+            ck.disagree(reg, {"tree": d, "theorem": "spelling_invariant_partial"}, "one denotation", sorted(vals))
+    if not inside_all:
+        reg.hit("outside:real_spellings_differ" if differs_somewhere else "outside:real_spellings_agree")
+    if len(reg.samples) < 2 and inside_all and free == "1" and tt.size(d) > 3:
+        reg.samples.append({"tree": d, "inside": True, "hints": {tt.opt_bits(o): v[0] for o, v in hints.items()}})
+
+
 def campaign_trees(ck: Check, n_plain: int, n_adv: int, thorough: bool) -> None:
-    camp = ck.campaign("types.hint vs DataType(...).type_hint and is_optional afterwards (8 option vectors per tree)")
-    camp2 = ck.campaign("structural rendering: print(hintE) vs the real hint; denote(hintE) vs typing.get_origin/get_args of the evaluated real hint")
-    orc = ck.campaign("oracle on the real hints: parses, evaluates, same normal form in all 8 spellings, no Optional[Optional[, None once, optional keeps alternatives")
+    tc = TreeCampaigns(ck)
     t0 = time.time()
     cases = list(tree_stream(ck, n_plain, n_adv, thorough))
     reqs = []
     for _, d in cases:
-        s = tt.sx(d)
-        for o in tt.OPTION_VECTORS:
-            reqs.append(f"types.hint {tt.opt_bits(o)} {s}")
-            reqs.append(f"types.hintexpr {tt.opt_bits(o)} {s}")
+        reqs.extend(tree_requests(d))
     reps = ck.driver.run(reqs)
-    i = 0
     t1 = time.time()
-    for stream, d in cases:
-        key = json.dumps(d, sort_keys=True, default=str)
-        domain = in_ir_domain(d)
-        per_opts = {}
-        for o in tt.OPTION_VECTORS:
-            rep, rep2 = reps[i], reps[i + 1]
-            i += 2
-            camp.evaluations += 1
-            impl = real_hint(d, o)
-            per_opts[o] = impl
-            if impl[0] == "!exc":
-                camp.unmodelled += 1
-                camp.hit("real_raises:" + impl[1])
-                continue
-            if rep.startswith("ok "):
-                _, a, b = rep.split(" ")
-                model = (unhx(a), b == "1")
-            else:
-                model = rep
-            camp.hit(f"stream:{stream}")
-            if model != impl:
-                ck.disagree(camp, {"tree": d, "opts": list(o)}, model, impl)
-            elif len(camp.samples) < 3 and tt.size(d) > 2:
-                camp.samples.append({"tree": d, "opts": list(o), "hint": impl[0], "is_optional_after": impl[1]})
-            # structural rendering
-            if rep2.startswith("ok "):
-                _, pe, fl, den, wf = rep2.split(" ")
-                camp2.evaluations += 1
-                camp2.hit("wfTree" if wf == "1" else "not_wfTree")
-                if wf == "1":
-                    if (unhx(pe), fl == "1") != impl:
-                        ck.disagree(camp2, {"tree": d, "opts": list(o), "what": "print(hintE) on a wfTree"}, (unhx(pe), fl == "1"), impl)
-                    elif domain and "literal_special" not in triggers(d):
-                        try:
-                            pyden = nf(eval_hint(impl[0]))
-                        except Exception as e:  # noqa: BLE001
-                            pyden = f"!{type(e).__name__}"
-                        if not pyden.startswith("!"):
-                            camp2.distinct.add((key, o))
-                            if pyden != unhx(den):
-                                ck.disagree(camp2, {"tree": d, "opts": list(o), "hint": impl[0], "what": "denote"}, unhx(den), pyden)
-                            elif len(camp2.samples) < 3 and tt.size(d) > 2:
-                                camp2.samples.append({"hint": impl[0], "normal_form": pyden})
-                        else:
-                            camp2.hit("real_hint_does_not_evaluate")
-        for t in triggers(d):
-            camp.hit("tree:" + t)
-        camp.hit(f"size:{min(tt.size(d), 8)}")
-        if tt.size(d) > 1:
-            camp.distinct.add(key)
-        # the property's own oracle, on the trees the property quantifies over
-        if domain:
-            orc.evaluations += 1
-            orc.hit(f"stream:{stream}")
-            for t in triggers(d):
-                orc.hit("tree:" + t)
-            oracle_tree(ck, orc, d)
-            if len(orc.samples) < 3 and tt.size(d) > 3:
-                orc.samples.append({"tree": d, "hints": {tt.opt_bits(o): v[0] for o, v in per_opts.items()}})
-    camp.wall_s = t1 - t0
-    orc.wall_s = time.time() - t1
+    for i, (stream, d) in enumerate(cases):
+        judge_tree(ck, tc, stream, d, reps[i * N_REQ : (i + 1) * N_REQ], real_side(d))
+    tc.camp.wall_s = t1 - t0
+    tc.orc.wall_s = time.time() - t1
+    region_note(ck, tc.reg, "seeded trees")
+
+
+def region_note(ck: Check, reg, label: str) -> None:
+    dist = reg.distribution
+    ck.notes[f"region coverage ({label})"] = {k: v for k, v in sorted(dist.items()) if k.startswith(("region:", "outside:", "wfTree"))}
+
+
+def campaign_exhaustive(ck: Check) -> None:
+    """Thorough tier: ALL trees of depth ≤ 3 over the six-atom vocabulary (121 806) and ALL fully decorated trees of
+    depth ≤ 2 (36 660), in all 8 spellings.  The real side and the oracle run in worker processes; the model side is
+    one driver batch per chunk; every comparison happens here."""
+    from concurrent.futures import ProcessPoolExecutor
+
+    tc = TreeCampaigns(ck, "exhaustive small scope")
+    t0 = time.time()
+    chunk, workers = 1500, max(2, min(14, (os.cpu_count() or 4) - 2))
+    for stream, gen in (("exhaustive_depth3", tt.exhaustive_depth3), ("exhaustive_depth2_decorated", tt.exhaustive_depth2)):
+        trees = list(gen())
+        chunks = [trees[i : i + chunk] for i in range(0, len(trees), chunk)]
+        with ProcessPoolExecutor(max_workers=workers) as pool:
+            futures = [pool.submit(_worker, c) for c in chunks]
+            for c, fut in zip(chunks, futures):
+                reqs = []
+                for d in c:
+                    reqs.extend(tree_requests(d))
+                reps = ck.driver.run(reqs)
+                reals = fut.result()
+                for i, (d, real) in enumerate(zip(c, reals)):
+                    judge_tree(ck, tc, stream, d, reps[i * N_REQ : (i + 1) * N_REQ], real)
+        tc.reg.hit(f"trees:{stream}", len(trees))
+    tc.camp.wall_s = time.time() - t0
+    region_note(ck, tc.reg, "exhaustive small scope")
 
 
 def campaign_field(ck: Check, n: int) -> None:
@@ -626,6 +823,8 @@ def run(ck: Check) -> None:
     campaign_isspace(ck)
     campaign_strings(ck, 1500 if quick else 20000)
     campaign_trees(ck, 1500 if quick else 6000, 400 if quick else 3000, thorough=not quick)
+    if not quick:
+        campaign_exhaustive(ck)
     campaign_field(ck, 600 if quick else 6000)
     ck.search_hooks.append(search_trees)
     known_findings(ck)
